@@ -2,6 +2,7 @@
     numbers over exact rationals = forward-mode derivative of the model.
     ExtrOcamlBasic only: Z, positive, Q, nat stay inductive. *)
 From Dino Require Import Base.Ops Base.Sums Base.Ord Model.Dual Model.Sigma Model.Implicit Model.PrimEq Extract.Common.
+From Dino Require Model.SHT Model.Deriv Model.Filters Thm.AdjointOps Thm.AdjointJvp.
 Require Extraction.
 Require Import ExtrOcamlBasic.
 
@@ -13,6 +14,53 @@ Definition dc (x : nat -> Q) : nat -> DQ := fun i => mkdual (x i) 0%Q.
 Definition dq (c : Q) : DQ := mkdual c 0%Q.
 Definition out (n : nat) (f : nat -> DQ) : list Q :=
   let l := map f (seq 0 n) in map re l ++ map ep l.
+
+
+(** ** nodal column algebra of the primitive equations at dual numbers (Model/PrimEq.v with the
+    lifts [dcfg], [dcol], [dmoist] of Thm/AdjointJvp.v).
+    ints = [K; include_vertical_advection; sparse]
+    arrs = primal block as in ExC04: [0 ls; 1 b; 2 Tref; 3 [R; kappa; Rv; Cpv]; 4 u; 5 v; 6 vort; 7 div;
+            8 temp; 9 [gx; gy; sec2; f; lap_lsp]; 10 q (or any tracer); 11 qc; 12 qi; 13 gqx; 14 gqy]
+           followed by the tangents of 4..14 at 15..25 (entries sec2, f of 20 are ignored). *)
+Definition cfg08 (ints : list Z) (arrs : list (list Q)) : @PEcfg Q :=
+  mkPE (intn ints 0) (scalar arrs 3 0) (scalar arrs 3 1) (arrf arrs 0) (arrf arrs 1) (arrf arrs 2).
+Definition ncol08 (arrs : list (list Q)) (off : nat) : @NCol Q :=
+  mkNCol (arrf arrs (4 + off)) (arrf arrs (5 + off)) (arrf arrs (6 + off)) (arrf arrs (7 + off)) (arrf arrs (8 + off))
+         (scalar arrs (9 + off) 0) (scalar arrs (9 + off) 1) (scalar arrs (9 + off) 2) (scalar arrs (9 + off) 3).
+
+(** ** 2-D helpers at the dual carrier *)
+Definition a2q (C : nat) (l : list Q) : nat -> nat -> Q := fun i j => qnth l (i * C + j).
+Definition d2v (x v : nat -> nat -> Q) : nat -> nat -> DQ := fun i j => mkdual (x i j) (v i j).
+Definition d2c (x : nat -> nat -> Q) : nat -> nat -> DQ := fun i j => mkdual (x i j) 0%Q.
+Definition out2 (n m : nat) (f : nat -> nat -> DQ) : list Q :=
+  let l := concat (map (fun i => map (f i) (seq 0 m)) (seq 0 n)) in map re l ++ map ep l.
+
+(** spectral derivative operators at dual numbers: op selects the operator *)
+Definition deriv08 (op : Z) (fast : bool) (L R C n : nat) (r : DQ) (a b x y : nat -> nat -> DQ) (c : bool) : option (list Q) :=
+  match op with
+  | 0%Z => Some (out2 R C (Deriv.d_dlon fast R x))
+  | 1%Z => Some (out2 R C (Deriv.D1 L C a b x))
+  | 2%Z => Some (out2 R C (Deriv.D2 L C a b x))
+  | 3%Z => Some (out2 R C (Deriv.laplacian L r x))
+  | 4%Z => Some (out2 R C (Deriv.inverse_laplacian L r x))
+  | 5%Z => Some (out2 R C (Deriv.clip L C n x))
+  | 6%Z => let g := Deriv.cos_lat_grad fast L R C r a b c x in Some (out2 R C (fst g) ++ out2 R C (snd g))
+  | 7%Z => Some (out2 R C (Deriv.div_cos_lat fast L R C r a b c (x, y)))
+  | 8%Z => Some (out2 R C (Deriv.curl_cos_lat fast L R C r a b c (x, y)))
+  | _ => None
+  end.
+(** the explicit transposes (Thm/AdjointOps.v) at exact rationals *)
+Definition derivT08 (op : Z) (fast : bool) (L R C n : nat) (r : Q) (a b y z : nat -> nat -> Q) : option (list Q) :=
+  match op with
+  | 0%Z => Some (qtab2 R C (fun i l => fopp (Deriv.d_dlon fast R y i l)))
+  | 1%Z => Some (qtab2 R C (AdjointOps.D1T L C a b y))
+  | 2%Z => Some (qtab2 R C (AdjointOps.D2T L C a b y))
+  | 3%Z => Some (qtab2 R C (Deriv.laplacian L r y))
+  | 4%Z => Some (qtab2 R C (Deriv.inverse_laplacian L r y))
+  | 5%Z => Some (qtab2 R C (Deriv.clip L C n y))
+  | 6%Z => Some (qtab2 R C (AdjointOps.cos_lat_gradT fast L R C r a b (y, z)))
+  | _ => None
+  end.
 
 Definition run_C08 (cmd : Z) (ints : list Z) (arrs : list (list Q)) : option (list Q) :=
   let K := intn ints 0%nat in
@@ -34,6 +82,67 @@ Definition run_C08 (cmd : Z) (ints : list Z) (arrs : list (list Q)) : option (li
   | 7%Z => let c := @mkPE DQ K (dq (scalar arrs 3%nat 0%nat)) (dq (scalar arrs 3%nat 1%nat)) (dc (A 0%nat)) (dc (A 1%nat)) (dc (A 2%nat)) in
            (* get_temperature_implicit(divergence): data 4 tangent 5; ints[1] = sparse *)
            Some (out K ((if intb ints 1%nat then temp_implicit_sparse else temp_implicit_dense) c (dv (A 4%nat) (A 5%nat))))
+  (* ---- nodal column algebra at dual numbers ---- *)
+  | 10%Z | 11%Z | 12%Z | 13%Z =>
+      let va := intb ints 1%nat in let sparse := intb ints 2%nat in
+      let c := AdjointJvp.dcfg (cfg08 ints arrs) in
+      let m := AdjointJvp.dmoist (mkMoist (scalar arrs 3%nat 2%nat) (scalar arrs 3%nat 3%nat)) in
+      let X := AdjointJvp.dcol (ncol08 arrs 0) (ncol08 arrs 11) in
+      let Qh := dv (A 10%nat) (A 21%nat) in
+      let QC := dv (A 11%nat) (A 22%nat) in let QI := dv (A 12%nat) (A 23%nat) in
+      let GX := dv (A 13%nat) (A 24%nat) in let GY := dv (A 14%nat) (A 25%nat) in
+      let lap := mkdual (scalar arrs 9%nat 4%nat) (scalar arrs 20%nat 4%nat) in
+      match cmd with
+      | 10%Z => Some (out K (u_dot_grad X) ++ out (K - 1) (sigma_dot_explicit c X) ++ out (K - 1) (sigma_dot_full c X)
+                      ++ out K (temp_vertical_tendency c va X) ++ out K (temp_adiabatic c X)
+                      ++ out 1 (fun _ => log_pressure_tendency c X) ++ out K (temp_nodal_total c va X)
+                      ++ out K (combined_u c va X (rt_dry c X)) ++ out K (combined_v c va X (rt_dry c X))
+                      ++ out K (kinetic X))
+      | 11%Z => Some (out K (tracer_nodal_total c va X Qh) ++ out K (hsa_mu X Qh) ++ out K (hsa_mv X Qh))
+      | 12%Z => Some (out K (temp_adiabatic_moist c m X Qh) ++ out K (temp_nodal_total_moist c va m X Qh)
+                      ++ out K (combined_u c va X (rt_moist c m X Qh)) ++ out K (combined_v c va X (rt_moist c m X Qh))
+                      ++ out K (humidity_div_nodal c m X Qh GX GY lap) ++ out K (humidity_geo_nodal c sparse m X Qh)
+                      ++ out K (humidity_curl_nodal c m X GX GY))
+      | _ => let rt := rt_cloud c m X Qh QC QI in
+             Some (out K (combined_u c va X rt) ++ out K (combined_v c va X rt))
+      end
+  (* ---- spherical-harmonic transforms (reference layout) at dual numbers; tables constant.
+          ints = [K; L; I; J]  arrs = [f (I*K); p (K*J*L); w (J); x; dx] ---- *)
+  | 20%Z => let Km := intn ints 0%nat in let L := intn ints 1%nat in let I := intn ints 2%nat in let J := intn ints 3%nat in
+            let f := SHT.arr2 I Km (arr arrs 0%nat) in let p := SHT.arr3 Km J L (arr arrs 1%nat) in
+            let x := SHT.arr2 Km L (arr arrs 3%nat) in let dx := SHT.arr2 Km L (arr arrs 4%nat) in
+            Some (out2 I J (SHT.synth Km L J (d2c f) (fun a j l => dq (p a j l)) (d2v x dx)))
+  | 21%Z => let Km := intn ints 0%nat in let L := intn ints 1%nat in let I := intn ints 2%nat in let J := intn ints 3%nat in
+            let f := SHT.arr2 I Km (arr arrs 0%nat) in let p := SHT.arr3 Km J L (arr arrs 1%nat) in
+            let w := SHT.arr1 (arr arrs 2%nat) in
+            let z := SHT.arr2 I J (arr arrs 3%nat) in let dz := SHT.arr2 I J (arr arrs 4%nat) in
+            Some (out2 Km L (SHT.analysis Km I J (d2c f) (fun a j l => dq (p a j l)) (dc w) (d2v z dz)))
+  (* the explicit transposes at exact rationals: synthT z, analysisT y *)
+  | 22%Z => let Km := intn ints 0%nat in let L := intn ints 1%nat in let I := intn ints 2%nat in let J := intn ints 3%nat in
+            let f := SHT.arr2 I Km (arr arrs 0%nat) in let p := SHT.arr3 Km J L (arr arrs 1%nat) in
+            Some (qtab2 Km L (AdjointOps.synthT I J f p (SHT.arr2 I J (arr arrs 3%nat))))
+  | 23%Z => let Km := intn ints 0%nat in let L := intn ints 1%nat in let I := intn ints 2%nat in let J := intn ints 3%nat in
+            let f := SHT.arr2 I Km (arr arrs 0%nat) in let p := SHT.arr3 Km J L (arr arrs 1%nat) in
+            let w := SHT.arr1 (arr arrs 2%nat) in
+            Some (qtab2 I J (AdjointOps.analysisT Km L f p w (SHT.arr2 Km L (arr arrs 3%nat))))
+  (* ---- spectral derivative operators: ints = [fast; M; L; R; C; clip; n; op]
+          arrs = [[r]; a; b; x; y; dx; dy] (dual run) / [[r]; a; b; y; z] (transposes) ---- *)
+  | 30%Z => let C := intn ints 4%nat in
+            deriv08 (int ints 7%nat) (intb ints 0%nat) (intn ints 2%nat) (intn ints 3%nat) C (intn ints 6%nat)
+                    (dq (scalar arrs 0%nat 0%nat)) (d2c (a2q C (arr arrs 1%nat))) (d2c (a2q C (arr arrs 2%nat)))
+                    (d2v (a2q C (arr arrs 3%nat)) (a2q C (arr arrs 5%nat)))
+                    (d2v (a2q C (arr arrs 4%nat)) (a2q C (arr arrs 6%nat))) (intb ints 5%nat)
+  | 31%Z => let C := intn ints 4%nat in
+            derivT08 (int ints 7%nat) (intb ints 0%nat) (intn ints 2%nat) (intn ints 3%nat) C (intn ints 6%nat)
+                     (scalar arrs 0%nat 0%nat) (a2q C (arr arrs 1%nat)) (a2q C (arr arrs 2%nat))
+                     (a2q C (arr arrs 3%nat)) (a2q C (arr arrs 4%nat))
+  (* ---- filters: leaf rescaling by a constant attenuation array (the exp table is an input):
+          ints = [R; C]  arrs = [scaling (C); x (R*C); dx (R*C)] ---- *)
+  | 40%Z => let R := intn ints 0%nat in let C := intn ints 1%nat in
+            let sc : @Filters.arr DQ := ([C], fun idx => dq (qnth (arr arrs 0%nat) (last idx 0%nat))) in
+            let x : @Filters.arr DQ := Filters.of_flat [R; C] (dv (A 1%nat) (A 2%nat)) in
+            let y := Filters.rescale sc x in
+            let l := Filters.to_flat y in Some (map re l ++ map ep l)
   | _ => None
   end.
 
